@@ -167,7 +167,7 @@ func main() {
 		allow[p] = true
 	}
 	// errors/context/os/time/syscall initialisers need reflectlite or the runtime: keep them off
-	for _, p := range []string{"os", "syscall", "time", "internal/poll", "context", "errors", "io/fs", "internal/oserror"} {
+	for _, p := range []string{"os", "syscall", "internal/poll", "context", "errors", "io/fs", "internal/oserror"} {
 		delete(allow, p)
 	}
 	icfg.AllowInit = func(p string) bool {
@@ -238,6 +238,8 @@ var modelRedirects = map[string]string{
 	"crypto/hmac.New":                   "NewHMAC",
 	"crypto/hmac.Equal":                 "HMACEqual",
 	"crypto/subtle.ConstantTimeCompare": "ConstantTimeCompare",
+	"encoding/asn1.Marshal":             "ASN1Marshal",
+	"encoding/asn1.Unmarshal":           "ASN1Unmarshal",
 	"context.WithValue":                 "WithValue",
 	"context.Background":                "Background",
 	"context.TODO":                      "Background",
